@@ -31,6 +31,10 @@ Guards(e) ==
       [] e.ev = "cleanup" ->
             {<<"G_C15_CleanupRemovesExpired", \A u \in Users : (pexp[u] => e.post.psig[u] = 0) /\ (mexp[u] => e.post.msig[u] = 0)>>,
              <<"G_C15_CleanupKeepsLive", \A u \in Users : (~pexp[u] => e.post.psig[u] = psig[u]) /\ (~mexp[u] => e.post.msig[u] = msig[u])>>}
+      [] e.ev = "sync_slowprimary" ->
+            \* a synchronisation that is slowed down by the primary does not stand in the way of the replica's readers
+            {<<"G_C15_OutageStillAuthenticates", e.out.authserved>>,
+             <<"G_C15_PrimaryUntouchedBySync", ObsU(e.post.prim) = prim /\ ObsU(e.post.psig) = psig>>}
       [] e.ev = "mutate_offline" ->
             {<<"G_C15_OutageRefusesWrites", e.out.refused>>,
              <<"G_C15_OutagePrimaryUnchanged", ObsU(e.post.prim) = prim /\ ObsU(e.post.psig) = psig /\ ~e.out.primchanged>>,
